@@ -27,11 +27,23 @@ pub trait HCtx {
     fn set_counter(&mut self, _t0: u64, _t1: u64) {
         panic!("harness: set_counter unsupported")
     }
+    fn set_length(&mut self, _n: u128) {
+        panic!("harness: set_length unsupported")
+    }
 }
 
 macro_rules! plain_ctx {
+    ($t:ty, md) => {
+        plain_ctx!(@body $t, fn set_length(&mut self, n: u128) {
+            self.verif_set_processed_bytes(n)
+        });
+    };
     ($t:ty) => {
+        plain_ctx!(@body $t,);
+    };
+    (@body $t:ty, $($extra:tt)*) => {
         impl HCtx for $t {
+            $($extra)*
             fn update(self: Box<Self>, d: &[u8]) -> Box<dyn HCtx> {
                 Box::new((*self).update(d))
             }
@@ -53,14 +65,14 @@ macro_rules! plain_ctx {
         }
     };
 }
-plain_ctx!(hashing::sha1::Context);
-plain_ctx!(hashing::ripemd160::Context);
-plain_ctx!(hashing::sha2::Context224);
-plain_ctx!(hashing::sha2::Context256);
-plain_ctx!(hashing::sha2::Context384);
-plain_ctx!(hashing::sha2::Context512);
-plain_ctx!(hashing::sha2::Context512_224);
-plain_ctx!(hashing::sha2::Context512_256);
+plain_ctx!(hashing::sha1::Context, md);
+plain_ctx!(hashing::ripemd160::Context, md);
+plain_ctx!(hashing::sha2::Context224, md);
+plain_ctx!(hashing::sha2::Context256, md);
+plain_ctx!(hashing::sha2::Context384, md);
+plain_ctx!(hashing::sha2::Context512, md);
+plain_ctx!(hashing::sha2::Context512_224, md);
+plain_ctx!(hashing::sha2::Context512_256, md);
 plain_ctx!(hashing::sha3::Context224);
 plain_ctx!(hashing::sha3::Context256);
 plain_ctx!(hashing::sha3::Context384);
@@ -654,6 +666,13 @@ pub fn run(h: &Ev, evs: &mut Vec<Value>) {
             "finalize_reset_with_key_at" => Out::Val(
                 slots[x].as_mut().expect("harness: dead slot").finalize_reset_with_key_at(&get_bytes(&e, "key"), get_usize(&e, "n")),
             ),
+            "set_length" => {
+                let off = get_bytes(&e, "off");
+                let mut b = [0u8; 16];
+                b.copy_from_slice(&off);
+                slots[x].as_mut().expect("harness: dead slot").set_length(u128::from_le_bytes(b));
+                Out::None
+            }
             "set_counter" => {
                 slots[x].as_mut().expect("harness: dead slot").set_counter(get_limbs_u64(&e, "t0"), get_limbs_u64(&e, "t1"));
                 Out::None
